@@ -1,6 +1,6 @@
 """C07 - BER writer and reader agree; encoding is canonical."""
 from facts import walk, callee_of, call_args, loc
-import hirq, anchors, absx, thresholds
+import sem, hirq, anchors, absx, thresholds
 
 EXPLANATION = ("B1 identifier octet - the writer composes "
                "class<<6 | structure<<5 | id (ids <= 30, else 0x1F) and the reader takes 2, 1, 5 bits in that order, 6 = 8-2 and 5 = 8-2-1; "
@@ -104,26 +104,78 @@ def run(ctx):
             marker = marker or first == ('array', (('lit', 0x81),))
     ors = [n for n, c in walk(WL.root) if n['k'] == 'Binary' and n['op'] == 'BitOr' and hirq.const_eval(f, n['r']) == 0x80]
     ctx.add('B2.writer-long-form-marker', 'count | 0x80', loc(WL.root), okl and marker and len(ors) == 1, 'long form must start with count | 0x80')
+    # the length reader, decided on its enumerated paths and exhaustively over the first octet (0..255):
+    #   short form exactly for X < 128, yielding X and the input after that octet;
+    #   long form exactly for X >= 128, reading exactly X - 128 octets with the *streaming* take (a short buffer asks for more)
+    #   and yielding their big-endian value; and no rejection other than the propagated failure of those primitives or of the
+    #   final conversion to usize (every definite length a peer can write is accepted, minimal or not)
     RL = hirq.Body(f, f.body('lber::parse::parse_length'))
     ctx.analysed['bodies'].add(RL.path)
-    routs = absx.Interp(f, RL).run()
-    first = ('field', ('variant', ('call', 'nom::number::streaming::be_u8', (('param', 'i'),), None), 'Ok', 0), '1')
-    def strip_site(t):
-        if isinstance(t, tuple):
-            if t and t[0] == 'call' and len(t) == 4:
-                return ('call', t[1], tuple(strip_site(x) for x in t[2]), None)
-            return tuple(strip_site(x) for x in t)
-        return t
-    rshort = [o for o in routs if any(strip_site(a) == ('bin', 'Lt', first, ('lit', 128)) and t for a, t in o.st.pc)]
-    ok = len(rshort) == 1 and strip_site(rshort[0].val) == ('ctor', 'Ok', (('tuple', (('field', first[1], '0'), ('cast', first, 'usize'))),))
-    ctx.add('B2.reader-short-form', 'len < 128', loc(RL.root), ok, 'reader short form must be chosen iff the first octet < 128 and yield that octet')
-    rlong = [o for o in routs if o.kind == 'val' and any(strip_site(a) == ('bin', 'Lt', first, ('lit', 128)) and not t for a, t in o.st.pc)]
-    okr = False
-    for o in rlong:
-        tk = [e for e in o.st.ev if e[0] == 'call' and e[1] == 'nom::bytes::streaming::take']
-        pu = [e for e in o.st.ev if e[0] == 'call' and e[1] == 'lber::parse::parse_uint']
-        okr = len(tk) == 1 and strip_site(tk[0][2][0]) == ('bin', 'Add', first, ('lit', -128)) and len(pu) == 1
-    ctx.add('B2.reader-long-form', 'len - 128 octets', loc(RL.root), okr, 'reader long form must take (first octet - 128) octets and read them as an unsigned integer')
+    routs = [o for o in absx.Interp(f, RL, combinators=True).run() if o.kind in ('val', 'ret')]
+    firsts = {sem.strip_site(t) for o in routs for i, cal, args, node in sem.calls(o, lambda c: c == 'nom::number::streaming::be_u8') for t in [('call', cal, args, None)]}
+    ctx.add('B2.reader-first-octet', 'be_u8', loc(RL.root), len(firsts) == 1 and list(firsts)[0][2] == (('param', 'i'),), 'the length reader must start by reading one octet of its input with streaming be_u8')
+    if len(firsts) == 1:
+        fcall = list(firsts)[0]
+        X = ('field', ('variant', fcall, 'Ok', 0), '1')
+        REST = ('field', ('variant', fcall, 'Ok', 0), '0')
+        def feasible(o, x):
+            """the tests of this path that depend only on the first octet hold for X = x"""
+            for a, t in o.st.pc:
+                a2 = sem.strip_site(a)
+                if sem.has(a2, lambda y: y == X) and not sem.has(a2, lambda y: y[0] == 'call' and y != fcall):
+                    try:
+                        if bool(absx.eval_term(a2, {X: x})) != t:
+                            return False
+                    except absx.NotEvaluable:
+                        return None
+            return True
+        succ = [o for o in routs if sem.is_ok_result(o.val)]
+        errs = [o for o in routs if sem.is_err_result(o.val)]
+        short = [o for o in succ if not sem.calls(o, lambda c: 'take' in c.rsplit('::', 1)[-1])]
+        longp = [o for o in succ if o not in short]
+        ok_dom = len(short) == 1 and len(longp) == 1
+        bad = []
+        if ok_dom:
+            for x in range(256):
+                fs, fl = feasible(short[0], x), feasible(longp[0], x)
+                if fs is None or fl is None or fs != (x < 128) or fl != (x >= 128):
+                    bad.append(x)
+        ctx.add('B2.reader-form-by-first-octet', 'X < 128', loc(RL.root), ok_dom and not bad,
+                'the short form must be taken exactly when the first octet is < 128 and the long form otherwise (evaluated for all 256 values; wrong for %s)' % bad[:6])
+        if len(short) == 1:
+            v = sem.strip_site(short[0].val)
+            oks = v[0] == 'ctor' and v[2][0][0] == 'tuple' and v[2][0][1][0] == REST
+            vals = []
+            if oks:
+                try:
+                    vals = [x for x in range(128) if absx.eval_term(v[2][0][1][1], {X: x}) != x]
+                except absx.NotEvaluable:
+                    oks = False
+            ctx.add('B2.reader-short-form', 'len < 128', loc(RL.root), oks and not vals, 'reader short form must yield the first octet itself and the input after it')
+        okr = False
+        if len(longp) == 1:
+            o = longp[0]
+            tk = sem.calls(o, lambda c: 'take' in c.rsplit('::', 1)[-1] or 'split' in c.rsplit('::', 1)[-1])
+            pu = sem.calls(o, lambda c: c == 'lber::parse::parse_uint')
+            if len(tk) == 1 and tk[0][1] == 'nom::bytes::streaming::take' and len(pu) == 1:
+                cnt = sem.strip_site(tk[0][2][0])
+                try:
+                    okr = all(absx.eval_term(cnt, {X: x}) == x - 128 for x in range(128, 256))
+                except absx.NotEvaluable:
+                    okr = False
+                # the octets taken are what parse_uint reads, from the input right after the first octet
+                app = [c for c in sem.calls(o, lambda c: c == '<indirect>') if sem.strip_site(c[2][0]) == sem.strip_site(('call', tk[0][1], tk[0][2], None))]
+                okr = okr and len(app) == 1 and sem.strip_site(app[0][2][1]) == REST and sem.has(pu[0][2][0], lambda y: y[0] == 'call' and y[1] == '<indirect>')
+        ctx.add('B2.reader-long-form', 'len - 128 octets', loc(RL.root), okr,
+                'reader long form must take exactly (first octet - 128) octets with nom\'s streaming take from the input after the first octet and read them as an unsigned integer')
+        n_rej = 0
+        for o in errs:
+            cause = sem.failed(o, lambda v: sem.has(v, lambda y: y[0] == 'call' and (y[1] in ('nom::number::streaming::be_u8', '<indirect>', 'lber::parse::parse_uint') or 'TryFrom' in y[1] or y[1].endswith('::try_from') or y[1].endswith('::try_into'))))
+            n_rej += 1
+            ctx.add('B2.reader-no-extra-rejection', 'parse_length', loc(RL.root), cause,
+                    'the length reader rejects its input on a path where none of its primitives (be_u8, take, parse_uint, conversion to usize) failed: a valid definite length is refused (%s)' %
+                    ', '.join(('' if t else '!') + absx.fmt(a)[:50] for a, t in o.st.pc[-2:]))
+        ctx.floor('B2', 'error paths of the length reader', n_rej, 3)
 
     # ------------------------------------------------------------------ B2m minimal long form (threshold partition)
     def len8(I, cal, args, node, st):
